@@ -61,12 +61,33 @@ def rules(p):
     R.append(("nonbool.filter_int", "DataTypeError", lambda x: x >> p.filter(C.a)))
     R.append(("nonbool.filter_expr", "DataTypeError", lambda x: x >> p.filter(C.a + 1)))
     R.append(("nonbool.filter_second", "DataTypeError", lambda x: x >> p.filter(C.a > 0, C.s)))
+    # 2b. non-boolean `when` conditions, also when the condition is a C.-column (its type is
+    # unknown while the case expression is built) and in the filter= context argument
+    R.append(("nonbool.when_C_int", "DataTypeError", lambda x: x >> p.mutate(y=p.when(C.a).then(1).otherwise(2))))
+    R.append(("nonbool.when_C_str", "DataTypeError", lambda x: x >> p.mutate(y=p.when(C.s).then(1).otherwise(2))))
+    R.append(("nonbool.when_C_nested_arith", "DataTypeError", lambda x: x >> p.mutate(y=p.when(C.a).then(1).otherwise(2) + 1)))
+    R.append(("nonbool.when_C_in_filter", "DataTypeError", lambda x: x >> p.filter(p.when(C.a).then(True).otherwise(False))))
+    R.append(("nonbool.when_C_in_summarize", "DataTypeError", lambda x: x >> p.group_by(C.g) >> p.summarize(y=p.when(C.a.max()).then(1).otherwise(2))))
+    R.append(("nonbool.when_second_cond", "DataTypeError", lambda x: x >> p.mutate(y=p.when(C.a > 0).then(1).when(C.b).then(2).otherwise(3))))
+    R.append(("nonbool.when_expr", "DataTypeError", lambda x: x >> p.mutate(y=p.when(C.a + 1).then(1).otherwise(2))))
+    R.append(("nonbool.agg_filter_C", "DataTypeError", lambda x: x >> p.mutate(y=C.b.sum(filter=C.a))))
+    R.append(("nonbool.agg_filter_summarize", "DataTypeError", lambda x: x >> p.group_by(C.g) >> p.summarize(y=C.b.sum(filter=C.s))))
+    # 2c. incompatible branch values of a case expression, also when only the default is a constant
+    R.append(("type_error.case_branches", "DataTypeError", lambda x: x >> p.mutate(y=p.when(C.a > 0).then(C.a).otherwise(C.s))))
+    R.append(("type_error.case_default_lit", "DataTypeError", lambda x: x >> p.mutate(y=p.when(C.a > 0).then(C.a).otherwise("x"))))
+    R.append(("type_error.case_then_lit", "DataTypeError", lambda x: x >> p.mutate(y=p.when(C.a > 0).then("x").otherwise(C.a))))
+    R.append(("type_error.case_lits", "DataTypeError", lambda x: x >> p.mutate(y=p.when(C.a > 0).then(1).otherwise("x"))))
     # 3. window / aggregate functions where they are forbidden
     R.append(("window.in_filter", "FunctionTypeError", lambda x: x >> p.filter(win() > 1)))
     R.append(("window.in_filter_nested", "FunctionTypeError", lambda x: x >> p.filter((C.a > 0) & (C.b.shift(1, arrange=[C.a]) > 0))))
     R.append(("aggregate.in_filter", "FunctionTypeError", lambda x: x >> p.filter(C.b > agg())))
     R.append(("window.in_summarize", "FunctionTypeError", lambda x: x >> p.group_by(C.g) >> p.summarize(y=win())))
     R.append(("window.in_summarize_nested", "FunctionTypeError", lambda x: x >> p.group_by(C.g) >> p.summarize(y=C.b.max() + win())))
+    # an aggregate with partition_by= is a window function: it does not aggregate for summarize
+    R.append(("window.partitioned_agg_in_summarize", "FunctionTypeError", lambda x: x >> p.group_by(C.g) >> p.summarize(y=C.b.sum(partition_by=C.a))))
+    R.append(("window.partitioned_agg_in_summarize_ungrouped", "FunctionTypeError", lambda x: x >> p.summarize(y=C.b.max(partition_by=C.g))))
+    R.append(("window.partitioned_agg_in_summarize_nested", "FunctionTypeError", lambda x: x >> p.group_by(C.g) >> p.summarize(y=C.b.min() + C.b.sum(partition_by=C.a))))
+    R.append(("window.partitioned_agg_in_summarize_case", "FunctionTypeError", lambda x: x >> p.group_by(C.g) >> p.summarize(y=p.when(C.b.max() > 0).then(C.b.sum(partition_by=C.a)).otherwise(0))))
     # 4. nested aggregate / window functions
     R.append(("nested.agg_in_agg", "FunctionTypeError", lambda x: x >> p.mutate(y=(C.b - C.b.mean()).sum())))
     R.append(("nested.window_in_agg", "FunctionTypeError", lambda x: x >> p.mutate(y=C.b.shift(1, arrange=[C.a]).sum())))
